@@ -345,3 +345,6 @@ def _same_scale(a, b):
   if a is None or b is None:
     return a is None and b is None
   return a.shape == b.shape and np.array_equal(a, b)
+
+# (appended: sub-lattices added after the seeded waves; kept out of the original RULE text for readability)
+RULE = RULE + "; plus: the same lattice after the layer hook _set_trainable_parameter ran on the original, and with the library's sigmoid mode switched between construction and rebuild; a fourth route rebuilds twice from one dictionary"
